@@ -10,7 +10,40 @@ use std::sync::atomic::{AtomicBool, AtomicU64, Ordering};
 use std::sync::Mutex;
 
 /// What each worker is executing right now, for the watchdog: (family, run index, scenario, since).
-pub static IN_FLIGHT: Mutex<Vec<Option<(String, u64, Value, std::time::Instant)>>> = Mutex::new(Vec::new());
+pub static IN_FLIGHT: Mutex<Vec<Option<(String, u64, Value, Flight)>>> = Mutex::new(Vec::new());
+
+/// Identity of the worker thread and its CPU time when the scenario started. The watchdog
+/// measures *CPU time of that thread*, not wall-clock time: a loop that touches no seam burns
+/// CPU, while a loaded machine or a worker waiting for a child process does not.
+#[derive(Clone, Copy)]
+pub struct Flight {
+    thread: libc::pthread_t,
+    cpu_start: f64,
+}
+
+fn thread_cpu_seconds(t: libc::pthread_t) -> Option<f64> {
+    unsafe {
+        let mut cid: libc::clockid_t = 0;
+        if libc::pthread_getcpuclockid(t, &mut cid) != 0 {
+            return None;
+        }
+        let mut ts: libc::timespec = std::mem::zeroed();
+        if libc::clock_gettime(cid, &mut ts) != 0 {
+            return None;
+        }
+        Some(ts.tv_sec as f64 + ts.tv_nsec as f64 * 1e-9)
+    }
+}
+
+impl Flight {
+    fn now() -> Flight {
+        let t = unsafe { libc::pthread_self() };
+        Flight { thread: t, cpu_start: thread_cpu_seconds(t).unwrap_or(0.0) }
+    }
+    fn cpu_used(&self) -> f64 {
+        thread_cpu_seconds(self.thread).map(|n| n - self.cpu_start).unwrap_or(0.0)
+    }
+}
 
 fn flight_slot() -> usize {
     let mut g = IN_FLIGHT.lock().unwrap();
@@ -18,7 +51,7 @@ fn flight_slot() -> usize {
     g.len() - 1
 }
 
-fn flight_set(slot: usize, v: Option<(String, u64, Value, std::time::Instant)>) {
+fn flight_set(slot: usize, v: Option<(String, u64, Value, Flight)>) {
     if let Ok(mut g) = IN_FLIGHT.lock() {
         if slot < g.len() {
             g[slot] = v;
@@ -26,8 +59,8 @@ fn flight_set(slot: usize, v: Option<(String, u64, Value, std::time::Instant)>) 
     }
 }
 
-/// Watchdog: if one base scenario runs longer than `limit_s` of wall-clock time the code under
-/// test is looping without touching a seam (the step budget would have caught it otherwise).
+/// Watchdog: if one base scenario burns more than `limit_s` seconds of CPU on its worker thread the
+/// code under test is looping without touching a seam (the step budget would have caught it otherwise).
 /// The scenario is written out as a replay file and the process exits 1. The limit is two
 /// orders of magnitude above the slowest legitimate scenario, so it only fires on a real hang.
 pub fn start_watchdog(property: String, limit_s: u64, root: String, seed: u64) {
@@ -35,7 +68,7 @@ pub fn start_watchdog(property: String, limit_s: u64, root: String, seed: u64) {
         std::thread::sleep(std::time::Duration::from_millis(500));
         let hung = {
             let g = IN_FLIGHT.lock().unwrap();
-            g.iter().flatten().find(|(_, _, _, t)| t.elapsed().as_secs() > limit_s).cloned()
+            g.iter().flatten().find(|(_, _, _, t)| t.cpu_used() > limit_s as f64).cloned()
         };
         if let Some((fam, idx, scn, _)) = hung {
             let dir = format!("{}/replays", root);
@@ -43,12 +76,12 @@ pub fn start_watchdog(property: String, limit_s: u64, root: String, seed: u64) {
             let path = format!("{}/{}-{}-{}-hang{}.json", dir, property, fam, seed, idx);
             let file = json!({
                 "property": property, "family": fam, "verif_seed": seed,
-                "violation": {"property": property, "oracle": "watchdog_hang", "detail": format!("base scenario {} did not finish within {} s of wall-clock time", idx, limit_s)},
+                "violation": {"property": property, "oracle": "watchdog_hang", "detail": format!("base scenario {} used more than {} s of CPU time on its worker thread without finishing", idx, limit_s)},
                 "trace_hash": "", "scenario": scn,
             });
             let _ = std::fs::write(&path, serde_json::to_string_pretty(&file).unwrap());
             println!("VIOLATION property={} replay={}", property, path);
-            println!("  oracle=watchdog_hang detail=family {} base scenario {} did not finish within {} s (a loop that touches no seam)", fam, idx, limit_s);
+            println!("  oracle=watchdog_hang detail=family {} base scenario {} used more than {} s of CPU time without finishing (a loop that touches no seam)", fam, idx, limit_s);
             std::process::exit(1);
         }
     });
@@ -217,7 +250,7 @@ pub fn run_family<F: Family>(f: &F, cfg: &RunCfg) -> Agg {
                     let seed = derive_seed(cfg.seed, f.name(), idx);
                     let mut rng = Rng::new(seed);
                     let base = f.generate(&mut rng, cfg.tier, idx);
-                    flight_set(slot, Some((f.name().to_string(), idx, serde_json::to_value(&base).unwrap(), std::time::Instant::now())));
+                    flight_set(slot, Some((f.name().to_string(), idx, serde_json::to_value(&base).unwrap(), Flight::now())));
                     agg.base_scenarios += 1;
                     let mut sub: u64 = 0;
                     let tb = std::time::Instant::now();
